@@ -113,6 +113,13 @@ theorem shape_scPost_val {σ σ2 : BState} {b : Nat} (hb : b < σ.len) (hT : Tou
     exact this
   exact allOk_mergeSt hok _ _ (by omega) (by omega) (by omega) (by rw [hte]) (by rw [hfe])
 
+theorem allOk_preBind {σ : BState} (h : AllOk σ) (c : Bool) (e : Expr) (b : Nat) : AllOk (preBind c e b σ).2 := by
+  cases c with
+  | false => exact h
+  | true =>
+    simp only [preBind, if_true, bindTmp]
+    exact allOk_addStmt (allOk_freshTmp h) _ _
+
 theorem shape_cmp2_body {o1 o2 : CmpOp} {l mid r : Expr} (hl : ShapeE l) (hm : ShapeE mid) (hr : ShapeE r)
     {σp : BState} {b : Nat} (hb : b < σp.len) (ho : (σp.blk b).succs = []) (hok : AllOk σp) (t' f' : Nat) :
     AllOk (cmp2Body o1 o2 l mid r t' f' b σp) := by
@@ -121,32 +128,31 @@ theorem shape_cmp2_body {o1 o2 : CmpOp} {l mid r : Expr} (hl : ShapeE l) (hm : S
   have ho' : ((newBB σp).2.blk b).succs = [] := by rw [blk_newBB_old σp b hb]; exact ho
   have ga : GoodV _ b (bld l .val b (newBB σp).2).2.1 (bld l .val b (newBB σp).2).2.2 := bld_good l .val b _ hb' ho'
   have ka := hl .val b _ hb' ho' (allOk_newBB hok)
-  have gc : GoodV _ _ (bld mid .val (bld l .val b (newBB σp).2).2.1 (bld l .val b (newBB σp).2).2.2).2.1
-      (bld mid .val (bld l .val b (newBB σp).2).2.1 (bld l .val b (newBB σp).2).2.2).2.2 :=
-    bld_good mid .val _ _ ga.lt ga.opn
-  have kc := hm .val _ _ ga.lt ga.opn ka
-  have gac := GoodV.trans hb' ga gc
   generalize bld l .val b (newBB σp).2 = a at *
-  generalize bld mid .val a.2.1 a.2.2 = c at *
-  have t1 : Touch (newBB σp).2 b (branchOn c.2.1 (.bi (.cmp o1) a.1 c.1) σp.len f' c.2.2) :=
-    gac.touch.trans (touch_branchOn _ _ _ _ _) hb' gac.cur
-  have k1 := allOk_branchOn kc (.bi (.cmp o1) a.1 c.1) σp.len f' gc.opn
-  generalize hσ1 : branchOn c.2.1 (.bi (.cmp o1) a.1 c.1) σp.len f' c.2.2 = σ1 at *
+  have gp := preBind_good hb' ga ((lifts mid || !atomicSyn mid) && needBind a.1 mid) a.1
+  have kp := allOk_preBind ka ((lifts mid || !atomicSyn mid) && needBind a.1 mid) a.1 a.2.1
+  generalize preBind ((lifts mid || !atomicSyn mid) && needBind a.1 mid) a.1 a.2.1 a.2.2 = p at *
+  have gc : GoodV _ _ (bld mid .val a.2.1 p.2).2.1 (bld mid .val a.2.1 p.2).2.2 := bld_good mid .val _ _ gp.lt gp.opn
+  have kc := hm .val _ _ gp.lt gp.opn kp
+  have gac := GoodV.trans hb' gp gc
+  generalize bld mid .val a.2.1 p.2 = c at *
+  have gm := preBind_good hb' gac (!stable c.1 r) c.1
+  have km := allOk_preBind kc (!stable c.1 r) c.1 c.2.1
+  generalize preBind (!stable c.1 r) c.1 c.2.1 c.2.2 = pm at *
+  have t1 : Touch (newBB σp).2 b (branchOn c.2.1 (.bi (.cmp o1) p.1 pm.1) σp.len f' pm.2) :=
+    gm.touch.trans (touch_branchOn _ _ _ _ _) hb' gm.cur
+  have k1 := allOk_branchOn km (.bi (.cmp o1) p.1 pm.1) σp.len f' gm.opn
+  generalize hσ1 : branchOn c.2.1 (.bi (.cmp o1) p.1 pm.1) σp.len f' pm.2 = σ1 at *
   have hl1 := t1.len
   simp only [len_newBB] at hl1
   have hxo : (σ1.blk σp.len).succs = [] := by
     rw [t1.frame _ (by simp) (by omega), blk_newBB_new]
-  have k1' : AllOk { σ1 with bad := σ1.bad || lifts mid || negNeg mid } := k1
-  have gc' : GoodV _ _ (bld mid .val σp.len { σ1 with bad := σ1.bad || lifts mid || negNeg mid }).2.1
-      (bld mid .val σp.len { σ1 with bad := σ1.bad || lifts mid || negNeg mid }).2.2 :=
-    bld_good mid .val σp.len { σ1 with bad := σ1.bad || lifts mid || negNeg mid } (by show σp.len < σ1.len; omega) hxo
-  have kc' := hm .val σp.len { σ1 with bad := σ1.bad || lifts mid || negNeg mid } (by show σp.len < σ1.len; omega) hxo k1'
-  have gd : GoodV _ _ (bld r .val (bld mid .val σp.len { σ1 with bad := σ1.bad || lifts mid || negNeg mid }).2.1
-      (bld mid .val σp.len { σ1 with bad := σ1.bad || lifts mid || negNeg mid }).2.2).2.1
-      (bld r .val (bld mid .val σp.len { σ1 with bad := σ1.bad || lifts mid || negNeg mid }).2.1
-      (bld mid .val σp.len { σ1 with bad := σ1.bad || lifts mid || negNeg mid }).2.2).2.2 :=
-    bld_good r .val _ _ gc'.lt gc'.opn
-  have kd := hr .val _ _ gc'.lt gc'.opn kc'
+  have g0 : GoodV σ1 σp.len σp.len σ1 := GoodV.refl (by omega) hxo
+  have gp2 := preBind_good (σ := σ1) (by omega) g0 (lifts r && needBind pm.1 r) pm.1
+  have kp2 := allOk_preBind k1 (lifts r && needBind pm.1 r) pm.1 σp.len
+  generalize preBind (lifts r && needBind pm.1 r) pm.1 σp.len σ1 = p2 at *
+  have gd : GoodV _ _ (bld r .val σp.len p2.2).2.1 (bld r .val σp.len p2.2).2.2 := bld_good r .val _ _ gp2.lt gp2.opn
+  have kd := hr .val _ _ gp2.lt gp2.opn kp2
   exact allOk_branchOn kd _ _ _ gd.opn
 
 theorem shape_bld (e : Expr) : ShapeE e := by
@@ -180,10 +186,14 @@ theorem shape_bld (e : Expr) : ShapeE e := by
   | bi o l r ihl ihr =>
     intro m b σ hb ho h
     have ga : GoodV σ b (bld l .val b σ).2.1 (bld l .val b σ).2.2 := bld_good l .val b σ hb ho
-    have gc : GoodV _ _ (bld r .val (bld l .val b σ).2.1 (bld l .val b σ).2.2).2.1
-        (bld r .val (bld l .val b σ).2.1 (bld l .val b σ).2.2).2.2 := bld_good r .val _ _ ga.lt ga.opn
+    have ka := ihl .val b σ hb ho h
     simp only [bld]
-    exact shape_finish m _ (ihr .val _ _ ga.lt ga.opn (ihl .val b σ hb ho h)) gc.opn
+    generalize bld l .val b σ = a at *
+    have gp := preBind_good hb ga (lifts r && needBind a.1 r) a.1
+    have kp := allOk_preBind ka (lifts r && needBind a.1 r) a.1 a.2.1
+    generalize preBind (lifts r && needBind a.1 r) a.1 a.2.1 a.2.2 = p at *
+    have gc : GoodV _ _ (bld r .val a.2.1 p.2).2.1 (bld r .val a.2.1 p.2).2.2 := bld_good r .val _ _ gp.lt gp.opn
+    exact shape_finish m _ (ihr .val _ _ gp.lt gp.opn kp) gc.opn
   | walrus x e ih =>
     intro m b σ hb ho h
     have g : GoodV σ b (bld e .val b σ).2.1 (bld e .val b σ).2.2 := bld_good e .val b σ hb ho
@@ -312,7 +322,12 @@ theorem shape_build (s : Stmt) : ∀ (prev b : Nat) (J : Jumps) (σ : BState), b
   | aug x op e =>
     intro prev b J σ hb ho h
     simp only [build, ensure_some, buildE]
-    exact allOk_addStmt (shape_bld e .val b σ hb ho h) _ _
+    split
+    · have g0 : GoodV σ b b (preBind true (.var x) b σ).2 := preBind_good hb (GoodV.refl hb ho) true (.var x)
+      have k0 := allOk_preBind h true (.var x) b
+      simp only [preBind, if_true] at g0 k0
+      exact allOk_addStmt (shape_bld e .val b _ g0.lt g0.opn k0) _ _
+    · exact allOk_addStmt (shape_bld e .val b σ hb ho h) _ _
   | expr e =>
     intro prev b J σ hb ho h
     simp only [build, ensure_some, buildE]
